@@ -396,9 +396,12 @@ class Negotiation(protocol.Protocol):
 
         try:
             # we accumulate a header block for each phase
-            if len(self.buffer) > 4096:
-                raise BananaError("Header too long")
+            # the limit applies to one header block, not to whatever else
+            # (the next block, or the first Banana tokens) happens to have
+            # arrived in the same packet
             eoh = self.buffer.find(b'\r\n\r\n')
+            if eoh > 4096 or (eoh == -1 and len(self.buffer) > 4096):
+                raise BananaError("Header too long")
             if eoh == -1:
                 return
             header, self.buffer = self.buffer[:eoh], self.buffer[eoh+4:]
